@@ -770,6 +770,29 @@ func (m *endpointManager) resolveWorkloadEndpoints() {
 		delete(m.activeWlEndpoints, id)
 	}
 
+	// promoteShadowedWorkload queues the preferred endpoint (if any) that is shadowed on the given
+	// interface name, for when the active endpoint that held that name has just released it.
+	promoteShadowedWorkload := func(ifaceName string) {
+		bestShadowedId := types.WorkloadEndpointID{}
+		for sId, sWorkload := range m.shadowedWlEndpoints {
+			if _, pending := m.pendingWlEpUpdates[sId]; pending {
+				// This endpoint has its own update or removal queued in this batch;
+				// that is newer than the shadowed copy and will be resolved when it is
+				// processed, so it must not be overwritten by a promotion.
+				continue
+			}
+			if sWorkload.Name == ifaceName {
+				if bestShadowedId.EndpointId == "" || wlIdsAscending(&sId, &bestShadowedId) {
+					bestShadowedId = sId
+				}
+			}
+		}
+		if bestShadowedId.EndpointId != "" {
+			m.pendingWlEpUpdates[bestShadowedId] = m.shadowedWlEndpoints[bestShadowedId]
+			delete(m.shadowedWlEndpoints, bestShadowedId)
+		}
+	}
+
 	// Repeat the following loop until the pending update map is empty.  Note that it's possible
 	// for an endpoint deletion to add a further update into the map (for a previously shadowed
 	// endpoint), so we cannot assume that a single iteration will always be enough.
@@ -793,6 +816,13 @@ func (m *endpointManager) resolveWorkloadEndpoints() {
 					}).Info("New endpoint has same iface name as existing")
 					if wlIdsAscending(&existingId, &id) {
 						logCxt.Info("Existing endpoint takes preference")
+						if oldWorkload != nil {
+							// This endpoint is active under its previous interface name; it no
+							// longer claims that name, so release it (and let an endpoint that was
+							// shadowed there take over).
+							removeActiveWorkload(logCxt, oldWorkload, id)
+							promoteShadowedWorkload(oldWorkload.Name)
+						}
 						m.shadowedWlEndpoints[id] = workload
 						delete(m.pendingWlEpUpdates, id)
 						continue
@@ -817,6 +847,8 @@ func (m *endpointManager) resolveWorkloadEndpoints() {
 					m.wlIfaceNamesToReconfigure.Discard(oldWorkload.Name)
 					m.linkAddrsMgr.RemoveLinkLocalAddress(oldWorkload.Name)
 					delete(m.activeWlIfaceNameToID, oldWorkload.Name)
+					// The old interface name is free now: an endpoint shadowed on it takes over.
+					promoteShadowedWorkload(oldWorkload.Name)
 				}
 				adminUp := workload.State == "active"
 				m.updateWorkloadARPChains(id, workload)
@@ -867,26 +899,7 @@ func (m *endpointManager) resolveWorkloadEndpoints() {
 				if oldWorkload != nil {
 					// Check for another endpoint with the same interface name,
 					// that should now become active.
-					bestShadowedId := types.WorkloadEndpointID{}
-					for sId, sWorkload := range m.shadowedWlEndpoints {
-						logCxt.Infof("Old workload %v", oldWorkload)
-						logCxt.Infof("Shadowed workload %v", sWorkload)
-						if _, pending := m.pendingWlEpUpdates[sId]; pending {
-							// This endpoint has its own update or removal queued in this batch;
-							// that is newer than the shadowed copy and will be resolved when it is
-							// processed, so it must not be overwritten by a promotion.
-							continue
-						}
-						if sWorkload.Name == oldWorkload.Name {
-							if bestShadowedId.EndpointId == "" || wlIdsAscending(&sId, &bestShadowedId) {
-								bestShadowedId = sId
-							}
-						}
-					}
-					if bestShadowedId.EndpointId != "" {
-						m.pendingWlEpUpdates[bestShadowedId] = m.shadowedWlEndpoints[bestShadowedId]
-						delete(m.shadowedWlEndpoints, bestShadowedId)
-					}
+					promoteShadowedWorkload(oldWorkload.Name)
 				}
 			}
 
